@@ -173,6 +173,9 @@ func run(r *report.Run, c tcase, idx int) error {
 			if b.Flags&model.FAdminRecord == 0 {
 				return true
 			}
+			if b.Src == m.Src && nodesim.PIDOf(b.Payload()) == pid {
+				return true // the scenario's own bundle (an administrative record by flag), merely forwarded
+			}
 			sr, err := decode(b)
 			if err != nil {
 				r.Violation("c15.report-undecodable", "administrative-record bundle emitted by the node cannot be decoded: "+err.Error(), wit())
@@ -297,8 +300,10 @@ func run(r *report.Run, c tcase, idx int) error {
 			}
 			_ = s.Deliver("p", o.raw)
 		}
+		refB, _ := bpv7.Builder().CRC(bpv7.CRC32).Source("dtn://node/reports").Destination("dtn://other/x").CreationTimestampNow().Lifetime("1h").
+			PayloadBlock([]byte("ref")).Build()
 		foreign, _ := bpv7.Builder().CRC(bpv7.CRC32).Source("dtn://other/").Destination("dtn://node/reports").CreationTimestampNow().Lifetime("1h").
-			StatusReport(mustParse(wire), bpv7.DeliveredBundle, bpv7.NoInformation).Build()
+			StatusReport(refB, bpv7.DeliveredBundle, bpv7.NoInformation).Build()
 		var fb bytes.Buffer
 		_ = foreign.WriteBundle(&fb)
 		_ = s.Deliver("p", fb.Bytes())
@@ -309,14 +314,6 @@ func run(r *report.Run, c tcase, idx int) error {
 			r.Violation("c15.cascade", fmt.Sprintf("feeding status reports to the node produced %d further administrative-record bundle(s)", admAfter-admBefore), wit())
 		}
 	})
-}
-
-func mustParse(w []byte) bpv7.Bundle {
-	b, err := bpv7.ParseBundle(bytes.NewReader(w))
-	if err != nil {
-		panic(err)
-	}
-	return b
 }
 
 // countAdmin counts distinct administrative-record bundles originated by this node.
